@@ -76,6 +76,10 @@ type saCtx struct {
 	pendingInvalid []saRej
 	nonTrivial     bool
 	earlyHandovers int
+	closed         map[int]bool // connections the harness closed
+	retired        map[int]bool // connections whose client DCID was retired
+	nextCID        []byte       // scripted result of the next GenerateConnectionID
+	reroutes       int
 }
 
 type saRej struct {
@@ -307,9 +311,12 @@ func (c *saCtx) recv(pktTerm string, data []byte, e saExpect, desc string) {
 		}
 	}
 	seen := map[string]bool{}
-	for _, nc := range c.sa.Conns {
+	for i, nc := range c.sa.Conns {
+		if c.closed[i] || c.retired[i] {
+			continue // its DCID is free again: a later Initial may get a new connection
+		}
 		if seen[string(nc.ClientDCID)] {
-			c.fail("sa/one-conn", fmt.Sprintf("two connections for client DCID %x", nc.ClientDCID))
+			c.fail("sa/one-conn", fmt.Sprintf("two live connections for client DCID %x", nc.ClientDCID))
 		}
 		seen[string(nc.ClientDCID)] = true
 	}
@@ -457,6 +464,24 @@ func (c *saCtx) doInitial(dcid []byte, addr int, size int) {
 	c.steps[len(c.steps)-1] = strings.Replace(c.steps[len(c.steps)-1], "@@NEWCID@@", term(newcid), 1)
 }
 
+// an intact 1200-byte Initial without token
+func (c *saCtx) doInitialPlain(dcid []byte, addr int) {
+	scid := c.scids[0]
+	ver := c.versions[0]
+	data := c.longPacket(0, ver, dcid, scid, nil, 1200, true)
+	before := len(c.sa.Conns)
+	term := func(newcid []byte) string {
+		return u.App("SPinitial", u.Z(int64(len(data))), saHx(dcid), saHx(scid), "TkNone", u.Z(int64(addr)), "true", saHx(newcid))
+	}
+	c.recv("@@NEWCID@@", data, saExpect{kind: "initial", size: len(data), addr: addr, dcid: dcid, scid: scid, ver: ver, tokLabel: "none", intact: true},
+		fmt.Sprintf("Initial(%dB dcid=%x tok=none addr=%d)", len(data), dcid, addr))
+	var newcid []byte
+	if len(c.sa.Conns) > before {
+		newcid = c.sa.Conns[before].SCID
+	}
+	c.steps[len(c.steps)-1] = strings.Replace(c.steps[len(c.steps)-1], "@@NEWCID@@", term(newcid), 1)
+}
+
 func (c *saCtx) do0RTT(dcid []byte, addr int) {
 	ver := c.versions[0]
 	data := c.longPacket(1, ver, dcid, c.scids[0], nil, 0, true)
@@ -474,6 +499,40 @@ func (c *saCtx) doUnsupported(addr, size int) {
 	}
 	data[1], data[2], data[3], data[4] = byte(v>>24), byte(v>>16), byte(v>>8), byte(v)
 	c.recv(u.App("SPunsupported", u.Z(int64(len(data))), u.Z(int64(addr))), data, saExpect{kind: "unsupported", size: len(data), addr: addr}, fmt.Sprintf("Unsupported(v=%x %dB addr=%d)", v, len(data), addr))
+}
+
+// a connection ends / the client's DCID is retired: routes disappear
+func (c *saCtx) doClose(retire bool) {
+	var live []int
+	for i := range c.sa.Conns {
+		if !c.closed[i] && !(retire && c.retired[i]) {
+			live = append(live, i)
+		}
+	}
+	if len(live) == 0 {
+		return
+	}
+	k := live[c.r.Intn(len(live))]
+	before := c.sa.State().Handlers
+	term := ""
+	if retire {
+		c.sa.RetireClientDCID(k)
+		c.retired[k] = true
+		term = u.App("SRetire", u.Z(int64(k)), saHx(c.sa.Conns[k].ClientDCID))
+	} else {
+		c.sa.CloseConn(k)
+		c.closed[k] = true
+		term = u.App("SClose", u.Z(int64(k)))
+	}
+	synctest.Wait()
+	after := c.sa.State().Handlers
+	out := u.App("SRemoved", u.Z(int64(before-after)))
+	c.steps = append(c.steps, u.App("SASt", term, out, c.obs()))
+	c.descs = append(c.descs, fmt.Sprintf("@%v %s=>%s", c.now(), term, out))
+	c.nonTrivial = true
+	if d := c.sa.Conns[k].ClientDCID; c.sa.ConnOf(d) == k {
+		c.fail("sa/route-after-close", fmt.Sprintf("%s: DCID %x still routes to connection %d", term, d, k))
+	}
 }
 
 func (c *saCtx) doMisc(addr int) {
@@ -497,7 +556,7 @@ func (c *saCtx) doMisc(addr int) {
 }
 
 func runOneServerAccept(w *bufio.Writer, r *u.Rng, idx int, dist map[string]int) {
-	c := &saCtx{r: r, verify: map[int]bool{}, refuse: map[int]bool{}}
+	c := &saCtx{r: r, verify: map[int]bool{}, refuse: map[int]bool{}, closed: map[int]bool{}, retired: map[int]bool{}}
 	switch r.Intn(3) {
 	case 0:
 		c.versions = []uint32{caV1}
@@ -524,7 +583,8 @@ func runOneServerAccept(w *bufio.Writer, r *u.Rng, idx int, dist map[string]int)
 	body := func() {
 		srvTLS, _, _ := simTLS()
 		o := quic.VerifSAOpts{DisableVN: c.disable, AcceptEarly: c.early, MaxTokenAge: saMaxTokenAge, HandshakeIdle: saHandshakeIdle, TLS: srvTLS,
-			RefuseAddr: func(a net.Addr) bool { return c.refuse[saAddrID(a)] }}
+			RefuseAddr: func(a net.Addr) bool { return c.refuse[saAddrID(a)] },
+			NextCID:    func() []byte { b := c.nextCID; c.nextCID = nil; return b }}
 		for _, v := range c.versions {
 			o.Versions = append(o.Versions, quic.Version(v))
 		}
@@ -546,8 +606,10 @@ func runOneServerAccept(w *bufio.Writer, r *u.Rng, idx int, dist map[string]int)
 				c.do0RTT(c.dcids[r.Intn(len(c.dcids))], addr)
 			case k < 65:
 				c.doUnsupported(addr, []int{1200, 1250, 1199, 100}[r.Intn(4)])
-			case k < 73:
+			case k < 71:
 				c.doMisc(addr)
+			case k < 80:
+				c.doClose(c.r.Bool())
 			case k < 88:
 				time.Sleep(time.Duration(r.Pick(20, 60, 101, 900, 1100, 2001, 3100)) * time.Millisecond)
 			default:
@@ -567,6 +629,29 @@ func runOneServerAccept(w *bufio.Writer, r *u.Rng, idx int, dist map[string]int)
 				case 2:
 					for j := 0; j < 34; j++ {
 						c.do0RTT(r.Bytes(8), addr)
+					}
+				case 4:
+					// the generator hands out, for a second connection, the DCID a first (live) connection was created for:
+					// AddWithConnID overwrites that route (observation, see C13_server_routes_refuted_without_fresh_ids)
+					d1, d2 := r.Bytes(8), r.Bytes(9)
+					a1 := addr
+					for c.verify[a1] || c.refuse[a1] {
+						a1 = (a1 + 1) % saNumAddrs
+						if a1 == addr {
+							break
+						}
+					}
+					if !c.verify[a1] && !c.refuse[a1] {
+						n0 := len(c.sa.Conns)
+						c.doInitialPlain(d1, a1)
+						if len(c.sa.Conns) == n0+1 {
+							c.nextCID = d1
+							c.doInitialPlain(d2, a1)
+							if len(c.sa.Conns) == n0+2 && c.sa.ConnOf(d1) == n0+1 {
+								c.reroutes++
+							}
+						}
+						c.nextCID = nil
 					}
 				case 3:
 					d := c.dcids[1]
@@ -608,6 +693,7 @@ func runOneServerAccept(w *bufio.Writer, r *u.Rng, idx int, dist map[string]int)
 	}
 	dist[fmt.Sprintf("shape=%d", shape)]++
 	dist["newconn-with-buffered-0rtt"] += c.earlyHandovers
+	dist["cid-collision-reroute"] += c.reroutes
 	dist[fmt.Sprintf("verify-mode=%d", vmode)]++
 	for _, d := range c.descs {
 		if i := strings.Index(d, "=>"); i >= 0 {
